@@ -697,3 +697,17 @@ metadata:
     assert!(nm.is_some());
   }
 }
+
+/// Verification hooks (cargo feature `verif-hooks`).
+#[cfg(feature = "verif-hooks")]
+#[doc(hidden)]
+pub mod verif_hooks {
+  use super::*;
+  /// a `RuleConfig` from an already built matcher (skips YAML / `deserialize_rule`)
+  pub fn rule_config_from_parts<L: Language>(
+    inner: SerializableRuleConfig<L>,
+    matcher: RuleCore<L>,
+  ) -> RuleConfig<L> {
+    RuleConfig { inner, matcher }
+  }
+}
